@@ -416,3 +416,10 @@ impl Prog {
         n
     }
 }
+
+/// Position-map key of a line that belongs to a block statement and holds an expression that can fail:
+/// `k` = arm index (1..) for an ELSEIF line, case index + 1 for a CASE line, 63 for a LOOP WHILE / LOOP UNTIL line.
+pub const AUX_BASE: Id = 0x4000_0000;
+pub fn aux_id(stmt: Id, k: u32) -> Id {
+    AUX_BASE + stmt * 64 + k
+}
